@@ -39,7 +39,9 @@ def nf(v):
     if isinstance(v, dict):
         return "{" + ", ".join(f"{nf(k)}: {nf(x)}" for k, x in sorted(v.items(), key=lambda kv: repr(kv[0]))) + "}"
     if isinstance(v, slice):
-        return canon_index(v)
+        if all(x is None or (isinstance(x, int) and not isinstance(x, bool)) for x in (v.start, v.stop, v.step)):
+            return canon_index(v)
+        return f"{'' if v.start in (None, 0) else nf(v.start)}:{'' if v.stop is None else nf(v.stop)}" + ("" if v.step in (None, 1) else f":{nf(v.step)}")
     if v is Ellipsis:
         return "..."
     if isinstance(v, Fraction) and v.denominator == 1:
